@@ -10,6 +10,7 @@ package plonk
 //@     p.evaluateGatesChip.numGateConstraints == p.commonData.NumGateConstraints && p.commonData.NumGateConstraints <= pow2(32) && sel_small(p.evaluateGatesChip.selectorsInfo)
 
 //@ func NewPlonkChip(api frontend.API, commonData types.CommonCircuitData) (res *PlonkChip)
+//@   locals createdGates gateId evaluateGatesChip
 //@   props C16 C17
 //@   circuit sound-only
 //@   requires cd_small(commonData) && commonData.Config.NumChallenges <= pow2(16) && 1 <= commonData.QuotientDegreeFactor && commonData.NumGateConstraints <= pow2(32)
@@ -23,6 +24,7 @@ package plonk
 //@ recdef qe_sq_iter(x QE, k int) QE = ite(k <= 0, x, qe_sqo(qe_sq_iter(x, k - 1)))
 
 //@ func (p *PlonkChip) expPowerOf2Extension(x gl.QuadraticExtensionVariable) (res gl.QuadraticExtensionVariable)
+//@   locals glApi i
 //@   props C16 C05
 //@   circuit
 //@   requires canonQE(x) && p.commonData.DegreeBits <= 32
@@ -32,6 +34,7 @@ package plonk
 // L_0(x) = (x^n - 1) / (n (x - 1)), stated as the defining product (the divisor is non-zero or the circuit is unsatisfiable)
 //@ def l0_den(x, n) = qe_sub(qe_smul(x, n), tuple(n, 0))
 //@ func (p *PlonkChip) evalL0(x gl.QuadraticExtensionVariable, xPowN gl.QuadraticExtensionVariable) (res gl.QuadraticExtensionVariable)
+//@   locals glApi evalZeroPoly denominator quotient hasQuotient
 //@   props C16 C05
 //@   circuit
 //@   requires plonk_ok(p) && canonQE(x) && canonQE(xPowN)
@@ -58,6 +61,7 @@ package plonk
 //@ def pp_acc(o, c, npp, i) = ite(i == 0, o.PlonkZs[c], ite(i == npp + 1, o.PlonkZsNext[c], o.PartialProducts[c * npp + ite(i == 0, 0, i - 1)]))
 
 //@ func (p *PlonkChip) checkPartialProducts(numerators []gl.QuadraticExtensionVariable, denominators []gl.QuadraticExtensionVariable, challengeNum uint64, openings variables.OpeningSet) (res []gl.QuadraticExtensionVariable)
+//@   locals glApi numPartProds quotDegreeFactor productAccs partialProductChecks i ppStartIdx numeProduct denoProduct j partialProductCheck
 //@   props C16 C05 C20 C02
 //@   circuit
 //@   requires cd_small(p.commonData) && pp_relation(p.commonData) && challengeNum <= pow2(16)
@@ -87,6 +91,7 @@ package plonk
 // eval_vanishing_poly: terms = [L0(zeta) (Z_i(zeta) - 1)]_i ++ [partial product checks]_i ++ gate constraints, reduced with powers of each alpha.
 // The numerators beta_i * (k_j zeta) + w_j + gamma_i and denominators beta_i * sigma_j + w_j + gamma_i are loop invariants (loop 2).
 //@ func (p *PlonkChip) evalVanishingPoly(vars gates.EvaluationVars, proofChallenges variables.ProofChallenges, openings variables.OpeningSet, zetaPowN gl.QuadraticExtensionVariable) (res []gl.QuadraticExtensionVariable)
+//@   locals glApi constraintTerms sIDs i l0Zeta vanishingZ1Terms vanishingPartialProductsTerms i z1_term numeratorValues denominatorValues j wireValuePlusGamma numerator denominator vanishingTerms reducedValues i i j
 //@   props C16 C05 C20 C01
 //@   circuit
 //@   calls gates.EvaluateGatesChip.EvaluateGateConstraints plonk.PlonkChip.evalL0
@@ -125,6 +130,7 @@ package plonk
 //   sum_k alpha_i^k * term_k  ==  (zeta^n - 1) * sum_m zeta^(n m) * quotient_chunk_i[m]
 // with the terms of eval_vanishing_poly (exported as ghost results of that call).
 //@ func (p *PlonkChip) Verify(proofChallenges variables.ProofChallenges, openings variables.OpeningSet, publicInputsHash poseidon.GoldilocksHashOut)
+//@   locals glApi zetaPowN localConstants localWires vars vanishingPolysZeta zHZeta i quotientPolysStartIdx quotientPolysEndIdx prod
 //@   props C16 C05 C20 C17 C01
 //@   circuit
 //@   calls plonk.PlonkChip.evalVanishingPoly
